@@ -130,16 +130,37 @@ def gen_scene(rng, sid, force=None):
     lstep = rng.choice([0.25, 0.5, 1.0, 2.5])
     lon0 = rng.choice([-180.0, -85.0, -1.0, -0.25, 0.0, 10.0, 100.5, 170.0])
     lons = [lon0 + i * lstep for i in range(nlo)]
+    lon_desc = rng.random() < 0.25
+    if rng.random() < 0.5:
+        # unevenly spaced horizontal axes (stretched / Gaussian-like grids): spacing of the first two nodes is NOT the
+        # spacing elsewhere — at least three nodes so that there is a second, different cell
+        def uneven(x0, n, hi):
+            xs, steps = [x0], [0.25, 0.5, 0.75, 1.0, 1.5, 2.5, 4.0]
+            last = None
+            for _ in range(max(n, 3) - 1):
+                st = rng.choice([s_ for s_ in steps if s_ != last])
+                last = st
+                xs.append(xs[-1] + st)
+            return [x for x in xs if x <= hi]
+        if rng.random() < 0.8:
+            ul = uneven(min(lat0, 80.0), nla + 1, 90.0)
+            lats = ul if len(ul) >= 3 else lats
+        if rng.random() < 0.8:
+            lons = uneven(lon0, nlo + 1, 360.0)
     lat_desc, lev_desc = rng.random() < 0.7, rng.random() < 0.7
     if 'grid' in force:
-        levels, lats, lons, lat_desc, lev_desc = force['grid']
+        levels, lats, lons, lat_desc, lev_desc, lon_desc = force['grid']
     taxis = force.get('taxis') or rng.choice(['none', 'scalar', 'dim24', 'dim24'])
     nsl = 24 if taxis == 'dim24' else 1
-    wind = force.get('wind') or rng.choice(['zero', 'uniform', 'uniform', 'varying', 'varying', 'varying'])
+    wind = force.get('wind') or rng.choice(['zero', 'uniform', 'uniform', 'varying', 'varying', 'varying', 'affine'])
     dtype = rng.choice(['f8', 'f8', 'f4', 'i2'])
     rq = (lambda x: float(round(x))) if dtype == 'i2' else q8
 
     def table(kind, cval):
+        if kind == 'affine':      # a + b*level + c*lat + d*lon: trilinear interpolation reproduces it exactly
+            a_, b_, c_, d_ = rng.uniform(-20, 20), rng.uniform(-0.03, 0.03), rng.uniform(-3, 3), rng.uniform(-3, 3)
+            return [[[rq(a_ + b_ * pl + c_ * (la - lats[0]) + d_ * (lo - lons[0])) for lo in lons] for la in lats]
+                    for pl in levels]
         if kind == 'varying':
             return [[[rq(rng.uniform(-60, 60)) for _ in lons] for _ in lats] for _ in levels]
         return [[[cval for _ in lons] for _ in lats] for _ in levels]
@@ -160,10 +181,10 @@ def gen_scene(rng, sid, force=None):
         vs.append(table(wind, cv))
         consts.append([cu, cv])
     return {'id': sid, 'levels': levels, 'lats': lats, 'lons': lons, 'taxis': taxis, 'wind': wind, 'dtype': dtype,
-            'lat_desc': lat_desc, 'lev_desc': lev_desc, 'dir': force.get('dir', sid),
+            'lat_desc': lat_desc, 'lev_desc': lev_desc, 'lon_desc': lon_desc, 'dir': force.get('dir', sid),
             'date': force.get('date') or rng.choice([d for d in DATES if d not in force.get('not_dates', ())]),
             'u': us, 'v': vs,
-            'const': consts if wind != 'varying' else None}
+            'const': consts if wind in ('zero', 'uniform') else None}
 
 
 def rotated_scene(sc, d_deg, sid):
@@ -192,7 +213,7 @@ def gen_query(rng, sc, kind=None):
     lats, lons = sc['lats'], sc['lons']
     kind = kind or rng.choices(['inside', 'node', 'out-lat', 'out-lon', 'out-high', 'out-low', 'too-high', 'tail', 'head'],
                                [46, 8, 5, 5, 4, 4, 2, 13, 13])[0]
-    if kind in ('tail', 'head') and sc['wind'] == 'varying':
+    if kind in ('tail', 'head') and sc.get('const') is None:
         kind = 'inside'
     lat = rng.uniform(lats[0], lats[-1])
     lon = rng.uniform(lons[0], lons[-1])
@@ -256,6 +277,8 @@ def write_scene(chk: Check, sc) -> Path:
         lev, u, v = lev[::-1], u[:, ::-1], v[:, ::-1]
     if sc['lat_desc']:
         lat, u, v = lat[::-1], u[:, :, ::-1], v[:, :, ::-1]
+    if sc.get('lon_desc'):
+        lon, u, v = lon[::-1], u[:, :, :, ::-1], v[:, :, :, ::-1]
     day = pd.Timestamp(sc['date'])
     dims3 = ('pressure_level', 'latitude', 'longitude')
     coords = {'pressure_level': lev, 'latitude': lat, 'longitude': lon}
@@ -441,7 +464,7 @@ def setup_config():
 
 def compact(sc, q):
     return {'scene': {k: sc[k] for k in ('id', 'levels', 'lats', 'lons', 'taxis', 'wind', 'dtype', 'lat_desc',
-                                         'lev_desc', 'date')} | {'dir': sc.get('dir', sc['id'])}, 'q': q}
+                                         'lev_desc', 'date')} | {'dir': sc.get('dir', sc['id']), 'lon_desc': sc.get('lon_desc', False)}, 'q': q}
 
 
 def judge(chk: Check, sc, q, io, prior=()):
@@ -587,6 +610,10 @@ def process(chk: Check, cases, variant, pairs=(), have_cfg=False):
         chk.count('kind:' + q['kind'])
         chk.count('impl:' + io[0])
         chk.count(f'file:{sc["wind"]}/{sc["taxis"]}/{sc["dtype"]}')
+        def _uneven(ax):
+            return len(ax) > 2 and max(b - a for a, b in zip(ax, ax[1:])) - min(b - a for a, b in zip(ax, ax[1:])) > 1e-9
+        chk.count('grid:' + ((('uneven-lat ' if _uneven(sc['lats']) else '') + ('uneven-lon ' if _uneven(sc['lons']) else '')
+                              + ('lon-descending' if sc.get('lon_desc') else '')).strip() or 'even'))
         if pr and pr[-1][0]['id'] != sc['id']:
             chk.count('seq:day-switch' + (':same-hour' if pr[-1][1]['hour'] == q['hour'] else ':other-hour')
                       + ('/time-axis' if sc['taxis'] == 'dim24' else '/no-time-axis'))
@@ -617,7 +644,8 @@ def load_corpus(chk):
 def run(chk: Check):
     chk.rule = ('synthetic ERA5-style NetCDF files (2-5 levels x 2-4 latitudes x 2-5 longitudes; zero / uniform / varying '
                 'wind; no time axis, scalar valid_time, 24-slice valid_time; float64/float32/int16; ascending or '
-                'descending level and latitude order; two or three daily files with different winds per directory, one Weather '
+                'descending level, latitude and longitude order; evenly and UNEVENLY spaced latitude / longitude axes; affine wind '
+                'fields; two or three daily files with different winds per directory, one Weather '
                 'object per directory asked A@H, B@H, A@H and across hours) and queries (inside, on grid nodes, just outside each axis, above '
                 '25 km, pure tail/head wind on uniform files, jointly rotated heading+wind pairs; heading via the point '
                 'or passed explicitly, incl. negative and > 360) from one PRNG stream; non-trivial = answered query with '
@@ -654,10 +682,10 @@ def run(chk: Check):
         group = [sc]
         if k % 7 == 0 or rng.random() < 0.65:
             for _ in range(rng.choice([1, 1, 2])):
-                sib = gen_scene(rng, sid, {'grid': (sc['levels'], sc['lats'], sc['lons'], sc['lat_desc'], sc['lev_desc']),
+                sib = gen_scene(rng, sid, {'grid': (sc['levels'], sc['lats'], sc['lons'], sc['lat_desc'], sc['lev_desc'], sc['lon_desc']),
                                            'dir': sc['dir'], 'not_dates': [g['date'] for g in group],
                                            'taxis': sc['taxis'] if rng.random() < 0.7 else None,
-                                           'wind': rng.choice(['uniform', 'varying'])})
+                                           'wind': rng.choice(['uniform', 'varying', 'affine'])})
                 sid += 1
                 group.append(sib)
         budget = per if len(group) == 1 else int(per * 1.6)
@@ -681,9 +709,9 @@ def run(chk: Check):
             mdir = sid
             mirror = {}
             for g in group:
-                mirror[g['id']] = gen_scene(rng, sid, {'grid': (g['levels'], g['lats'], g['lons'], g['lat_desc'], g['lev_desc']),
+                mirror[g['id']] = gen_scene(rng, sid, {'grid': (g['levels'], g['lats'], g['lons'], g['lat_desc'], g['lev_desc'], g['lon_desc']),
                                                        'dir': mdir, 'date': g['date'], 'taxis': g['taxis'],
-                                                       'wind': rng.choice(['uniform', 'varying'])})
+                                                       'wind': rng.choice(['uniform', 'varying', 'affine'])})
                 sid += 1
             inter = []
             for g, q in cases[first_case:]:
